@@ -388,6 +388,8 @@ def gen_real_config(rng, kind):
         cfg["preset_jobs"] = rng.sample(preset_job_pool("union_squad"), rng.choice([0, 1, 1, 2, 3]))
         cfg["budget"] = rng.choice([0, 1, 2, 3, 5, 9, 15, 22, 30, 37, 42, 47, 50])
         cfg["step"] = 1
+        # a board may hold the same job twice (a job gives its effect once, by its LARGEST placed block): smaller duplicates placed later
+        cfg["duplicates"] = [(rng.randrange(0, 40), rng.choice([1, 2, 3])) for _ in range(rng.choice([0, 0, 1, 2]))]
     elif kind == "union_occupation":
         cfg["preset_state"] = rng.choice([None, None, [0, 0, 0, 0, 40], [5, 0, 0, 0, 0], [0, 10, 0, 3, 0]])
         cfg["budget"] = rng.choice([0, 1, 7, 20, 39, 40, 41, 60, 80, 120, 160, 199, 200, 201, 250])
@@ -444,6 +446,14 @@ def build_target(cfg):
         from simaple.data.system.union_block import create_with_some_large_blocks
         jobs = [JobType(j) for j in cfg["preset_jobs"]]
         squad = proto(("squad",) + tuple(cfg["preset_jobs"]), lambda: create_with_some_large_blocks(large_block_jobs=jobs))
+        if cfg.get("duplicates"):
+            from simaple.system.union import UnionSquad
+            sizes, blocks = list(squad.block_size), list(squad.blocks)
+            for idx, smaller in cfg["duplicates"]:
+                idx %= len(squad.blocks)
+                sizes.append(max(1, squad.block_size[idx] - smaller))
+                blocks.append(squad.blocks[idx])
+            squad = UnionSquad(block_size=sizes, blocks=blocks)
         t = O.UnionSquadTarget(stat, logic, squad, preempted_jobs=jobs, **kw)
         start = [0] * squad.length()
         for j in jobs:
